@@ -422,6 +422,8 @@ OWNERS = {
     'C01.malformed-range': ['C01'],
     'C09.malformed-with-replacement': ['C09'],
     'C09.had-errors': ['C09', 'C02'],
+    'C09.manual-differs': ['C09'],
+    'C09.enc-manual-differs': ['C09'],
     'C10.encoding': ['C10'],
     'C08.noprogress': ['C08'],
     'C08.call-bound': ['C08'],
